@@ -4,8 +4,8 @@
 (* (embedded/document over embedded/sql, pkg/database document API).        *)
 (*                                                                         *)
 (* Abstract state: one collection = the id field, a set of declared typed  *)
-(* fields (STRING, INTEGER, DOUBLE, BOOLEAN; "n.x" is a nested path), a    *)
-(* set of indexes (one or two fields, unique or not) and the documents as  *)
+(* fields (STRING, INTEGER, DOUBLE, BOOLEAN; "n.x", "n.y.z" nested paths), *)
+(* a set of indexes (one or two fields, unique or not), the documents as    *)
 (* id -> sequence of revisions.  A revision is a deletion mark or a        *)
 (* content: a value per field of the universe (-1 = the field is missing,  *)
 (* 0 = JSON null, 1..K = the k-th value of the field's type in the type's  *)
@@ -69,9 +69,11 @@ VARIABLES created,   \* the collection exists
 vars == <<created, declared, indexes, docs, ix, wlog, stampc, nfail, rnd, hist>>
 
 -----------------------------------------------------------------------------
-AllFields == <<"s", "i", "d", "b", "n.x">>
+\* nesting depth 1: s i d b; depth 2: n.x; depth 3 (the engine's maximum): n.y.z; TooDeep has depth 4 and must be refused
+AllFields == <<"s", "i", "d", "b", "n.x", "n.y.z">>
 TypeOf(f) == CASE f = "s" -> "STRING" [] f = "i" -> "INTEGER" [] f = "d" -> "DOUBLE" [] f = "b" -> "BOOLEAN"
-               [] f = "n.x" -> "INTEGER"
+               [] f = "n.x" -> "INTEGER" [] f = "n.y.z" -> "STRING"
+TooDeep == "n.y.z.w"
 FieldSeq == SelectSeq(AllFields, LAMBDA f : f \in Fields)
 NVals(f) == IF TypeOf(f) = "BOOLEAN" THEN 2 ELSE K
 Null == 0
@@ -443,6 +445,12 @@ Delete(o) ==
           \E S \in {Selected(ContentView, t.q, t.ob, t.lim) : t \in U} :
           \E t \in {McPick(U, S)} : DeleteStep(t.q, t.lim, t.ob)
 
+\* a field nested deeper than the maximum is refused; nothing changes
+AddTooDeep ==
+  /\ created /\ CanStep /\ Sim /\ Chance(0, 75, 6)
+  /\ SchemaSame /\ DataSame /\ UNCHANGED nfail
+  /\ LogSame([op |-> "addfield", f |-> TooDeep, ok |-> FALSE, nonempty |-> LiveIds # {}])
+
 Reopen ==
   /\ created /\ CanStep /\ Sim /\ Chance(0, 70, 3)
   /\ SchemaSame /\ DataSame /\ UNCHANGED nfail
@@ -479,7 +487,7 @@ GetById(o) ==
   /\ SchemaSame /\ DataSame /\ UNCHANGED nfail
 
 Next == \/ CreateCollection(0) \/ AddField(0) \/ RemoveField(3) \/ CreateIndex(6) \/ DeleteIndex(10)
-        \/ Insert(0) \/ Insert(12) \/ Replace(0) \/ Delete(0) \/ Reopen
+        \/ Insert(0) \/ Insert(12) \/ Replace(0) \/ Delete(0) \/ Reopen \/ AddTooDeep
         \/ Search(0) \/ Search(60) \/ Audit(0) \/ GetById(0)
 Spec == Init /\ [][Next]_vars
 
